@@ -17,7 +17,7 @@ ASSUMPTIONS = [
 ]
 
 PAIRS = {('"', "“"), ('"', "”"), ("'", "‘"), ("'", "’")}
-ALPHABET = ['"', "'", "a", "s", " ", ".", ",", "\n", "—", "(", "{%", "%}", "x", "\r", "\x0c"]
+ALPHABET = ['"', "'", "a", "s", " ", ".", ",", "\n", "—", "(", "{%", "%}", "x", "\r", "\x0c", "6"]
 PARA_BREAK = re.compile(r"\n\s*\n")          # the documented rule: two newlines with optional whitespace between them
 
 
@@ -186,7 +186,7 @@ def bounded(tier, seed):
     evals += FS.coalesce_spec_sweep(viol, 6 if tier == "quick" else 7)
     return {"evaluations": evals, "distinct_nontrivial": len(distinct), "violations": viol,
             "samples": [{"text": "\"a\" it's"}, {"text": docs[-5]}],
-            "rule": "(also: coalesce_raw_text_nodes == 'each maximal run RawText (soft-break RawText)* becomes its first node with the texts joined by newline, every other node kept' on every child sequence of <= 6 (thorough 7) nodes over {text, soft break, hard break, code span, emphasis}) smart_quotes on every string of length <= %d over the 13-symbol alphabet %r: Q(input, output) and template tags "
+            "rule": "(also: coalesce_raw_text_nodes == 'each maximal run RawText (soft-break RawText)* becomes its first node with the texts joined by newline, every other node kept' on every child sequence of <= 6 (thorough 7) nodes over {text, soft break, hard break, code span, emphasis}) smart_quotes on every string of length <= %d over the 16-symbol alphabet %r: Q(input, output) and template tags "
                     "verbatim; documents of the document space + 20 targeted ones (quotes split over paragraphs, list items, quote blocks, table cells, "
                     "multi-block footnote definitions) x 2 option sets: output with the option on is "
                     "Q-related to the output with it off (same length, same line breaks), every converted opening quote has its converted partner in the same paragraph, and has the same literal spans; distinct = "
